@@ -426,6 +426,20 @@ fn cpi(ix: &Instruction, infos: &[AccountInfo], signers_seeds: &[&[&[u8]]]) -> P
 
 static METADATA_PROGRAM: std::sync::OnceLock<Pubkey> = std::sync::OnceLock::new();
 
+/// The legacy Memo v1 deployment (a real program that does what the memo program does, under another id), and an "obliging" program
+/// that accepts every instruction: stand-ins for a program account the caller substitutes for an expected program.  An instruction that
+/// names them instead of the expected program must be refused by the whirlpool program itself - the CPI would not stop it.
+pub fn memo_v1_program() -> Pubkey {
+    static K: std::sync::OnceLock<Pubkey> = std::sync::OnceLock::new();
+    *K.get_or_init(|| std::str::FromStr::from_str("Memo1UhkJRfHyvLMcVucJwxXeuD728EqVDDwQDxFMNo").unwrap())
+}
+pub fn obliging_program() -> Pubkey {
+    let mut b = [0x0bu8; 32];
+    b[0] = 0x0b;
+    b[31] = 0xee;
+    Pubkey::new_from_array(b)
+}
+
 /// Two transfer-hook programs (Token-2022 `TransferHook` extension) executed natively: they accept `Execute` when the source and the
 /// destination are Token-2022 accounts flagged as `transferring` (what a canonical hook asserts) and need no extra accounts.
 pub fn hook_program(n: u8) -> Pubkey {
@@ -466,6 +480,15 @@ fn dispatch(program_id: &Pubkey, infos: &[AccountInfo], data: &[u8]) -> ProgramR
         spl_associated_token_account::processor::process_instruction(program_id, infos, data)
     } else if *program_id == spl_memo::ID {
         spl_memo::processor::process_instruction(program_id, infos, data)
+    } else if *program_id == memo_v1_program() {
+        // same behaviour as the memo program: valid UTF-8, every account a signer
+        std::str::from_utf8(data).map_err(|_| ProgramError::InvalidInstructionData)?;
+        if infos.iter().any(|a| !a.is_signer) {
+            return Err(ProgramError::MissingRequiredSignature);
+        }
+        Ok(())
+    } else if *program_id == obliging_program() {
+        Ok(())
     } else if *program_id == hook_program(1) || *program_id == hook_program(2) {
         hook_process(infos, data)
     } else if *program_id == *METADATA_PROGRAM.get_or_init(|| std::str::FromStr::from_str("metaqbxxUerdq28cj1RbAWkYQm3ybzjb6a8bt518x1s").unwrap()) {
